@@ -470,6 +470,51 @@ class SX:
             return Val(t, t.mk(*[i.term for i in items]))
         self.unsupported("cannot lift concrete %r" % (x,))
 
+    # ---- regular-language abstraction of string values (used for "holes" in generated SQL / JSON / python text)
+    ALLSTR = None
+
+    def str_class(self, v, st):
+        """a z3 regular expression over-approximating the string value v on this path"""
+        if SX.ALLSTR is None:
+            SX.ALLSTR = z3.Full(z3.ReSort(z3.StringSort()))
+        if isinstance(v, Conc):
+            v = self.lift(v)
+        if not isinstance(v, Val) or v.term is None or not isinstance(v.ty, (V._Str, V._Bytes)):
+            return SX.ALLSTR
+        if v.aux and "re" in v.aux:
+            return v.aux["re"]
+        t = z3.simplify(v.term)
+        if z3.is_string_value(t):
+            return z3.Re(t)
+        found = []
+        def scan(e):
+            if z3.is_and(e):
+                for c in e.children():
+                    scan(c)
+            elif z3.is_app(e) and e.decl().kind() == z3.Z3_OP_SEQ_IN_RE and e.arg(0).eq(v.term):
+                found.append(e.arg(1))
+        for h in st.pc:
+            scan(h)
+        if z3.is_app(v.term) and v.term.decl().name() == "int_to_str":
+            found.append(z3.Concat(z3.Option(z3.Re("-")), z3.Plus(z3.Range("0", "9"))))
+        if not found:
+            return SX.ALLSTR
+        r = found[0]
+        for f in found[1:]:
+            r = z3.Intersect(r, f)
+        return r
+
+    def with_class(self, v, cls, st):
+        """attach a language to a freshly built string and record the membership as a path fact"""
+        if SX.ALLSTR is None:
+            SX.ALLSTR = z3.Full(z3.ReSort(z3.StringSort()))
+        if cls is None or cls.eq(SX.ALLSTR):
+            return v
+        v.aux = dict(v.aux or {})
+        v.aux["re"] = cls
+        st.assume(z3.InRe(v.term, cls))
+        return v
+
     def coerce_str(self, v, st):
         """a value used as text (str(x) view): itself for str, the string payload for a JSON string, else opaque"""
         v = self.deref(self.lift(v) if isinstance(v, Conc) else v, st)
@@ -509,7 +554,10 @@ class SX:
         if a.ty == b.ty:
             if isinstance(a.ty, V._None):
                 return a
-            return Val(a.ty, z3.If(c, a.term, b.term))
+            r = Val(a.ty, z3.If(c, a.term, b.term))
+            if isinstance(a.ty, V._Str) and st is not None and ((a.aux and "re" in a.aux) or (b.aux and "re" in b.aux)):
+                r.aux = {"re": z3.Union(self.str_class(a, st), self.str_class(b, st))}
+            return r
         if isinstance(a.ty, V._None) and not isinstance(b.ty, V.Opt):
             t = V.Opt(b.ty)
             return Val(t, z3.If(c, t.none(), t.some(b.term)))
